@@ -63,7 +63,11 @@ RULE = ("cases: (a) exhaustive: one field whose content ranges over all strings 
 TRUSTED = ["dedicated matchers for preamble_re / boundary_re / BLANK_LINE_RE / HEADER_CONTINUATION_RE, bytes.splitlines/strip, "
            "str.strip (white-space set of str.isspace) / partition / lower (ASCII), rindex, strict UTF-8 decoding and encoding "
            "(C01/Model.v utf8_decode, Lib/Utf8.v utf8: proved inverse to each other; that they are CPython's codec is validated "
-           "by this correspondence)"]
+           "by this correspondence)",
+           "source-level tie of _parseparam / parse_header: the translator tools/py2coq_c01.py (subset and fuel rule in its "
+           "docstring); str.lower is an argument of the translated parse_header, instantiated with the model's lower (exact "
+           "for U+0000..U+00FF, compared with the interpreter on those on every run); C01/PyLib.v (slices, find, count, "
+           "replace, s[k], %) and Lib/PyStr.v compared with the interpreter on every run"]
 ASSUMPTIONS = ["well-formed body: CRLF line breaks, no transport padding, contents and preamble free of '--'+boundary, boundary "
                "free of CR/LF, header names and parameter names ASCII, charset utf-8 or latin-1, the form encoded in the charset "
                "the decoder is given, name and filename parameters quoted",
@@ -894,6 +898,22 @@ def shrink(case):
         c2[ci] = [body[a:z] for a, z in zip(pts, pts[1:])]
         c2[-1] = m2
         yield c2
+
+
+def extra_obligations(tier):
+    """_parseparam and parse_header (baize/utils.py) are translated to Gallina from the source in BAIZE_REPO as it is now
+    (tools/py2coq_c01.py: the two nested while loops become Fixpoints on explicit fuel with a distinct out-of-fuel value, the
+    generator the list of the pieces it yields; str.lower is the argument py_lower, instantiated with the model's lower), and
+    coqc re-checks C01/Translated.v (parseparam_translated, parse_header_translated: translated = the functions of C01/Model.v
+    for every text, never out of fuel, never StopIteration) against the fresh definitions.  A source shape the translator
+    refuses is not applicable (no alarm).  With it: C01/PyLib.v, the model's lower (U+0000..U+00FF) and Lib/PyStr.v compared
+    with the interpreter by evaluation."""
+    import importlib.util
+    import os
+    spec = importlib.util.spec_from_file_location("py2coq_c01", os.path.join(core.VERIF, "tools", "py2coq_c01.py"))
+    tr = importlib.util.module_from_spec(spec)
+    spec.loader.exec_module(tr)
+    return tr.obligations(core.REPO, core.VERIF)
 
 
 if __name__ == "__main__":
